@@ -241,14 +241,16 @@ pub(crate) fn prune_scan_queue_below(
             .is_some_and(|retain| priority <= ScanPriority::Scanned || priority >= retain)
     };
 
-    // Every entry this operation can touch starts below `height`; the queue's non-overlap
-    // invariant leaves the remainder unaffected. Reading them up front keeps the no-op
-    // case read-only, so callers probing at every wallet open never contend for the write
-    // lock.
+    // Every entry this operation can change starts below `height`; the queue's non-overlap
+    // invariant leaves the remainder unaffected. The entry that starts exactly at `height`
+    // is read as well (and never changed): a pruned range that ends there may take on its
+    // priority, and the two are then coalesced like any other neighbours. Reading them up
+    // front keeps the no-op case read-only, so callers probing at every wallet open never
+    // contend for the write lock.
     let existing = {
         let mut stmt = conn.prepare_cached(
             "SELECT block_range_start, block_range_end, priority FROM scan_queue
-             WHERE block_range_start < :height
+             WHERE block_range_start <= :height
              ORDER BY block_range_start",
         )?;
 
@@ -269,7 +271,7 @@ pub(crate) fn prune_scan_queue_below(
         .iter()
         .flat_map(|entry| {
             let range = entry.block_range();
-            if is_retained(entry.priority()) {
+            if is_retained(entry.priority()) || range.start >= height {
                 vec![entry.clone()]
             } else {
                 // Only the part below `height` is pruned; any remainder keeps its priority.
@@ -311,7 +313,7 @@ pub(crate) fn prune_scan_queue_below(
     }
 
     conn.execute(
-        "DELETE FROM scan_queue WHERE block_range_start < :height",
+        "DELETE FROM scan_queue WHERE block_range_start <= :height",
         named_params![":height": u32::from(height)],
     )?;
     insert_queue_entries(conn, replacement.iter())?;
